@@ -213,8 +213,123 @@ let run_json_dec (payload : string) : string =
     | M.PFuel -> "fuel" in
   String.concat " ;; " (go 4 bs []) ^ " | spec: " ^ spec
 
+(* reader: "<hex data|-> | <schedule> | <ops>"
+   schedule entries: <n> chunk, <n>E chunk reporting EOF with the last data, F fault ; ops: 1 b<k> u t s *)
+let rerr_name = function M.REof -> "eof" | M.RUnexpectedEof -> "ueof" | M.RNoProgress -> "noprogress" | M.RFault -> "fault"
+
+let parse_sched (s : string) : M.sched_entry list =
+  List.map (fun w ->
+      if w = "F" then M.SFault
+      else if String.length w > 0 && w.[String.length w - 1] = 'E'
+      then M.SChunk (nat_of_int (int_of_string (String.sub w 0 (String.length w - 1))), true)
+      else M.SChunk (nat_of_int (int_of_string w), false)) (split_ws s)
+
+let parse_ops (s : string) : M.rop list =
+  List.map (fun w ->
+      match w.[0] with
+      | '1' -> M.OpRead1
+      | 'b' -> M.OpReadb (nat_of_int (int_of_string (String.sub w 1 (String.length w - 1))))
+      | 'u' -> M.OpUnread
+      | 't' -> M.OpTrack
+      | 's' -> M.OpStopTrack
+      | _ -> failwith "bad op") (split_ws s)
+
+let print_routs (os : M.rout list) : string =
+  String.concat " " (List.map (function
+      | M.OByte b -> "1:" ^ hex_of_bytes [b]
+      | M.OBytes bs -> "b:" ^ hex_or_dash bs
+      | M.OErr e -> "!" ^ rerr_name e
+      | M.OUnit -> "."
+      | M.OPanic -> "!panic") os)
+
+let run_reader (payload : string) : string =
+  match String.split_on_char '|' payload with
+  | [d; sc; ops] ->
+      let data = let h = String.trim d in if h = "-" then [] else bytes_of_hex h in
+      let ops = parse_ops ops in
+      let (o1, s1) = M.run_ops (M.slick_init data (parse_sched sc)) ops in
+      let (o2, s2) = M.run_ops_abs (M.astream_init data) ops in
+      Printf.sprintf "%s @%s | abs: %s @%s" (print_routs o1) (dec_of_z s1.M.snum) (print_routs o2) (dec_of_z s2.M.anum)
+  | _ -> failwith "bad reader payload"
+
+(* sched-dec: "<c|j> <hex> | <schedule>" -> the decoders' result on the whole input (schedule-independent) *)
+let run_sched_dec (payload : string) : string =
+  let head = List.hd (String.split_on_char '|' payload) in
+  match split_ws head with
+  | fmt :: rest ->
+      let hex = (match rest with h :: _ -> h | [] -> "") in
+      let bs = if hex = "-" then [] else bytes_of_hex hex in
+      let total = List.length bs in
+      if fmt = "c" then
+        (match M.dec_run false bs with
+         | M.DOk (toks, rest, _) -> Printf.sprintf "ok @%d %s" (total - List.length rest) (print_tokens toks)
+         | M.DFail (e, toks, _) -> Printf.sprintf "err %s %d" (derr_name e) (List.length toks)
+         | M.DPanicked _ -> "panic" | M.DOutOfFuel _ -> "hang")
+      else
+        (match M.jdec_run bs with
+         | M.JDOk (toks, rest) -> Printf.sprintf "ok @%d %s" (total - List.length rest) (print_tokens toks)
+         | M.JDFail (e, toks) -> Printf.sprintf "err %s %d" (derr_name e) (List.length toks)
+         | M.JDOutOfFuel _ -> "hang")
+  | _ -> failwith "bad sched-dec payload"
+
+(* wfault: "<c|j> <err|short|both> <stop|once> <k> | <tokens>"  (json: "<line> <indent> <oracle>|<tokens>" after the bar) *)
+let run_wfault (payload : string) : string =
+  let i = String.index payload '|' in
+  let head = String.sub payload 0 i and body = String.sub payload (i + 1) (String.length payload - i - 1) in
+  match split_ws head with
+  | [fmt; kind; mode; k] ->
+      let plan = { M.wk = nat_of_int (int_of_string k); M.wstop = (mode = "stop");
+                   M.wkind = (match kind with "err" -> M.WErr | "short" -> M.WShort | _ -> M.WBoth) } in
+      let r =
+        if fmt = "c" then M.cbor_write_faulty plan (parse_tokens body)
+        else begin
+          let j = String.index body '|' in
+          let jh = String.sub body 0 j and toks = String.sub body (j + 1) (String.length body - j - 1) in
+          let line, indent, oracle = match split_ws jh with
+            | [l; ind; o] -> (opt_bytes l, opt_bytes ind, o) | _ -> failwith "bad json head" in
+          let o = { M.jline = line; M.jindent = (match indent with Some b -> b | None -> []) } in
+          M.json_write_faulty (make_shortest oracle) o plan (parse_tokens toks)
+        end in
+      (match r with
+       | M.WReported n -> Printf.sprintf "err %d" (int_of_nat n)
+       | M.WTokenErr n -> Printf.sprintf "err %d" (int_of_nat n)
+       | M.WFinished n -> Printf.sprintf "fin %d" (int_of_nat n)
+       | M.WStarved -> "starved"
+       | M.WPanic -> "panic")
+  | _ -> failwith "bad wfault head"
+
+(* rfault: "<c|j> <hex> | <k> <stop|once>": the reader fails at byte offset k *)
+let run_rfault (payload : string) : string =
+  match String.split_on_char '|' payload with
+  | [head; tail] ->
+      let fmt, hex = (match split_ws head with [f; h] -> (f, h) | _ -> failwith "bad rfault head") in
+      let k = int_of_string (List.hd (split_ws tail)) in
+      let bs = bytes_of_hex hex in
+      let pre = List.filteri (fun i _ -> i < k) bs in
+      let total = List.length pre in
+      let whole = run_sched_dec (fmt ^ " " ^ hex ^ " |") in
+      let r =
+        if fmt = "c" then
+          (match M.dec_run false pre with
+           | M.DOk (toks, rest, _) -> Printf.sprintf "ok @%d %s" (total - List.length rest) (print_tokens toks)
+           | M.DFail (M.EMalformed, toks, _) -> Printf.sprintf "err other %d" (List.length toks)
+           | M.DFail (_, toks, _) -> Printf.sprintf "err fault %d" (List.length toks)
+           | _ -> "panic")
+        else
+          (match M.jdec_run pre with
+           | M.JDOk (toks, rest) -> Printf.sprintf "ok @%d %s" (total - List.length rest) (print_tokens toks)
+           | M.JDFail (M.EMalformed, toks) -> Printf.sprintf "err other %d" (List.length toks)
+           | M.JDFail (_, toks) -> Printf.sprintf "err fault %d" (List.length toks)
+           | _ -> "hang") in
+      r ^ " | whole: " ^ whole
+  | _ -> failwith "bad rfault payload"
+
 let dispatch (suite : string) (payload : string) : string =
   match suite with
+  | "wfault" -> run_wfault payload
+  | "rfault" -> run_rfault payload
+  | "sched-dec" -> run_sched_dec payload
+  | "reader" -> run_reader payload
   | "json-dec" -> run_json_dec payload
   | "json-enc" -> run_json_enc payload
   | "pretty-enc" -> run_pretty_enc payload
